@@ -132,7 +132,7 @@ func verifH_C02_stays_in_frame() {
 	err2 := s.serveOne(context.Background(), conn, sink, &shmConnState{})
 	verifReach("second-served")
 	verifAssert(err2 == nil, "the next request is served")
-	verifAssert(verifInDesync == 0, "nothing a request leaves behind is read as part of the next one")
+	verifAssert(verifInDesync == 0 && verifInLost == 0, "nothing a request leaves behind is read as part of the next one, and nothing of the next one is swallowed with it")
 	verifAssert(verifInNext == len(verifInQueue), "every stream the client sent was consumed by the request it belongs to")
 	verifAssert(verifHCalls == callsBefore+1, "the next request reaches its handler")
 	all := verifSinkStreams(sink)
